@@ -248,6 +248,38 @@ func runC16Bubble(c LookupCase, info *h.Info) *h.Violation {
 			}
 		}
 	}
+	if c.Kind == "hang-then-ok" {
+		// Only the very first request hangs (until the context of the caller that sent it ends at E);
+		// every later request is answered at once. So a caller whose own limit reaches beyond E must
+		// end up with a handle: it either joined the first flight and retries after it failed with
+		// SOMEBODY ELSE's context error, or it starts after E.
+		first := -1
+		for i, cl := range c.Callers {
+			if cl.Entry != "secret" && (first < 0 || starts[i] < starts[first]) {
+				first = i
+			}
+		}
+		if first >= 0 {
+			lim := func(cl LCaller) time.Duration {
+				if cl.Ctx == "deadline" || cl.Ctx == "cancel" {
+					if d := time.Duration(cl.TS) * time.Second; d < 5*time.Minute || cl.Ctx == "deadline" {
+						return d
+					}
+				}
+				return 5 * time.Minute
+			}
+			E := starts[first] + lim(c.Callers[first])
+			for i, cl := range c.Callers {
+				if i == first || cl.Entry == "secret" {
+					continue
+				}
+				if end := starts[i] + lim(cl); end > E+time.Second && results[i].done && results[i].err != nil {
+					return h.V("not-failed-by-anothers-cancellation", "caller %d %+v failed (%v) although only the first request hangs (until %v, the end of caller %d's context) and its own limit reaches until %v; requests: %s", i, cl, results[i].err, E, first, end, fmtReqs(reqs))
+				}
+			}
+			info.Class("first-request-hangs-then-service-answers")
+		}
+	}
 	lone := 0
 	for _, cl := range c.Callers {
 		if cl.Entry != "secret" {
